@@ -11,11 +11,11 @@ CHECKS = {
    design="5/C01"),
  "C02": dict(
    technique="explicit-state exploration (position BFS + family enumeration, one make/take-back per transition) and exhaustive operation-sequence DFS (make / null move / take-back, nesting depth 4-5) against a reference stack",
-   text="Every transition of the position sweep and every nested make / null-move / take-back sequence up to the stated depth on one Game object: the result of make_move is compared field by field with the reference rules (en-passant target by the tolerant rule), every take-back with a full snapshot (placement, side, rights, ep, clocks, key, accumulators, bitboards, history length), and the three board views on all 64 squares after every operation.",
+   text="Every transition of the position sweep and every nested make / null-move / take-back sequence up to the stated depth on one Game object: the result of make_move is compared field by field with the reference rules (en-passant target by the tolerant rule), every take-back with a full snapshot (placement, side, rights, ep, clocks, key, accumulators, bitboards, history length), and the three board views on all 64 squares after every operation; the null move is tried before and after the real moves of a node; one scripted reversible game of 300 (700) plies with every legal move made and taken back at every ply (clock and history length past 256); F-CORNER and F-ABSURD families.",
    design="5/C02"),
  "C03": dict(
    technique="exhaustive operation-sequence DFS + position BFS with key recomputation after every operation, a key->identity collision map over all states met, and all 838^2 pairs of key components",
-   text="The carried key equals the from-scratch key after every make, null move and take-back of every explored sequence (null moves with an en-passant target included, vacuity-guarded); two identities under one key anywhere in the exploration is a violation; all 838 components recovered through the public API are pairwise distinct and non-zero (exhaustive).",
+   text="The carried key equals the from-scratch key after every make, null move and take-back of every explored sequence (null moves with an en-passant target included, vacuity-guarded); two identities under one key anywhere in the exploration is a violation; all 838 components recovered through the public API are pairwise distinct and non-zero (exhaustive). Null move before and after the real moves of every node (hidden state across take-backs), full operation trace as replay case.",
    design="5/C03"),
  "C04": dict(
    technique="exhaustive enumeration of search sessions (complete 3-man endgame families, tactical roots x depth x hash size x prior searches x start generation) and of environment deviations (every clock-read index as expiry point) on the real search in a checked build",
@@ -23,7 +23,7 @@ CHECKS = {
    design="5/C04"),
  "C05": dict(
    engine="tvc-sched",
-   technique="stateless model checking of the real code: exhaustive preemption-bounded DFS over thread interleavings (shuttle runtime, own yield-aware scheduler) for every well-formed command script up to length 5-6, plus an abstract-state fixpoint",
+   technique="stateless model checking of the real code: exhaustive preemption-bounded DFS over thread interleavings (shuttle runtime, own yield-aware scheduler) for every well-formed command script up to length 5-6 (and, in a second dialect with forced-move roots and clocks on the go line, up to length 3-4), plus an abstract-state fixpoint; the scripts are also run on the optimised binary in five modes",
    text="The real Uci command loop (GUI task) and the real search closure spawned by go run under a controlled scheduler; for every well-formed script over a 10-letter alphabet up to the stated length, every schedule within the stated preemption bound is executed; deadlock (no runnable task), livelock (step bound), missing readyok, a go without exactly one bestmove, quit not ending the loop are violations. Failing schedules are replayed twice before being reported. The set of abstract protocol states closes (reported), which extends the verdict to longer histories under a stated assumption.",
    note="shuttle 0.9.3 (sequentially consistent interleavings); std::sync / std::thread of uci/mod.rs, util/sync.rs, time_control.rs re-pointed by the cfg-guarded shim lines; go infinite modelled as a blocking wait at the poll (hook H1); preemption-bounded, not unbounded",
    design="5/C05"),
@@ -40,7 +40,7 @@ CHECKS = {
    text="Every info line of every search of the enumerated sessions (and every printed `info` line of 76 roots through the command loop under seven equivalent phrasings of the depth limit, and of the optimised binary): PV non-empty and legal move by move on the reference model, depths 1,2,3.. within the limit, every mate announcement (for or against) with exactly the matching number of plies and ending in checkmate of the announced side. Sessions include prior table contents (same and other positions, ucinewgame, generation wrap).",
    design="5/C08"),
  "C09": dict(
-   technique="fault/deviation enumeration on the real search: for each (position, limit) every poll index k at which the stop flag first reads true, on fresh and pre-filled tables, followed by further searches",
+   technique="fault/deviation enumeration on the real search: for each (position, limit) every poll index k at which the stop flag first reads true, on tables whose generation counter reads 0 and 1 during the stopped search (fresh and pre-filled), followed by further searches",
    text="The stop flag is behind a seam; for every search of the set the number of polls P of the unstopped run is measured and all k in 1..P are executed (production polling frequency). After the first true observation: no further node visit, no further poll, a legal move, the given position untouched, and follow-up searches on the same tables return legal moves and legal lines.",
    design="5/C09"),
  "C10": dict(
@@ -49,7 +49,7 @@ CHECKS = {
    design="5/C10"),
  "C11": dict(
    technique="exhaustive path enumeration (no state merging) from small seeds with start clocks {0,3,97..100} against a history oracle; complete material families for the material rule",
-   text="Every node of every path up to length 5 (thorough 7) from 15 seeds (incl. rook-pawn double steps beside an enemy pawn on the opposite edge and all four rooks at home with all rights) x up to 6 start clocks: is_repeated_position() and the fifty-move verdict compared with the list of identities since the last capture/pawn move (both en-passant conventions; unasserted where they disagree). Material rule on all kings+0/1 positions, a complete kings+3-minors slice and every state of the sweep.",
+   text="Every node of every path up to length 5 (thorough 7) from 15 seeds (plus 42 scripted rook-cycle histories of up to 470 plies with recurrence distances 4..112, and the fifty-move verdict at clocks 0/99/100/101/150 on every state of the sweep; incl. rook-pawn double steps beside an enemy pawn on the opposite edge and all four rooks at home with all rights) x up to 6 start clocks: is_repeated_position() and the fifty-move verdict compared with the list of identities since the last capture/pawn move (both en-passant conventions; unasserted where they disagree). Material rule on all kings+0/1 positions, a complete kings+3-minors slice and every state of the sweep.",
    design="5/C11"),
  "C12": dict(
    technique="exhaustive enumeration of sessions (all sequences up to length 3 over searches / ucinewgame / set hash) on independently built states under four clock behaviours; differential oracle <H, ucinewgame, P> = <P on fresh> from table generations 0/253/254/255; the real command loop; separate optimised processes; and exhaustive preemption-bounded schedule enumeration (tvc-sched) of ucinewgame racing the finishing search thread",
@@ -60,19 +60,19 @@ CHECKS = {
    text="Each setoption is followed by isready -> readyok, a read-back of the option, and go depth 3 -> exactly one legal bestmove; a dead or hung search thread or a blocked command loop is a violation.",
    design="5/C13"),
  "C14": dict(
-   technique="exhaustive enumeration of a dense clock grid (about 1 M tuples quick) through TimeStrategy::new, and of a coarser grid plus all 720 field orders of one go line through the real go command (limits read through hook H5); virtual-clock search runs for the second clause",
-   text="Every (remaining, increment, movestogo, overhead, side, own-clock-only/both) tuple of the grid: hard <= (remaining-overhead)/2 with 1 ms tolerance, soft <= hard; movetime used as given for 5000+ values. The clause about returning before the clock runs out is explored under a virtual clock (time = nodes x 1 microsecond) on a coarser grid; real wall-clock time cannot be enumerated (stated).",
+   technique="exhaustive enumeration of a dense clock grid (about 1 M tuples quick) through TimeStrategy::new, and of a coarser grid plus all 720 field orders of one go line through the real go command (limits read through hook H5); all 585 option histories of length <= 3 before a clock-limited go (OPTION-ORDER); virtual-clock search runs for the second clause, plus a labelled wall-clock MEASUREMENT on the optimised binary (best of five, calibrated; not an enumeration)",
+   text="Every (remaining, increment, movestogo, overhead, side, own-clock-only/both) tuple of the grid: hard <= (remaining-overhead)/2 with 1 ms tolerance, soft <= hard; movetime used as given for 5000+ values. The clause about returning before the clock runs out is explored under a virtual clock (time = nodes x 1 microsecond) on a coarser grid; real wall-clock time cannot be enumerated (stated): E7-WALL-CLOCK measures six scenarios (plain, first search after ucinewgame / after a resize on the largest table) with 200-250 ms on the clock and is skipped when the sandbox cannot time a 100 ms search.",
    design="5/C14"),
  "C15": dict(
    technique="explicit-state exploration + exhaustive operation-sequence DFS with recomputation of phase counter and packed accumulator after every operation",
-   text="After every make, null move and take-back of every explored sequence, and in every state of the sweep (promotions, en passant, castling and F-HEAVY included), the carried phase counter and piece-square accumulator equal IncrementalEvalFields::init(&board) and separate 64-bit sums of the per-piece contributions.",
+   text="After every make, null move and take-back of every explored sequence, and in every state of the sweep (promotions, en passant, castling and F-HEAVY included), the carried phase counter and piece-square accumulator equal IncrementalEvalFields::init(&board) and separate 64-bit sums of the per-piece contributions (where they fit the packed halves); eval(game object) equals eval(position re-read from its FEN) at every node and after every take-back (path independence); F-ABSURD (20..56 queens or rooks of one colour) and a 300-ply scripted game.",
    design="5/C15"),
  "C16": dict(
    technique="explicit-state exploration over positions reached by moves (BFS) and enumerated families incl. material far outside normal play, each with its colour-mirrored twin; exhaustive lattice of (mg, eg, phase) triples",
    text="Every state: eval equals eval of the mirrored twin built from scratch, no panic, outside the mate range, between the evaluations with phase forced to 24 and to 0; the blend function on a stride-257 lattice x phase 0..96 and the full square [-300,300]^2 x phase; pack/unpack round trip (thorough: all pairs in [-32767,32767]^2).",
    design="5/C16"),
  "C17": dict(
-   technique="exhaustive path enumeration: every game up to length 2-4 from the start position and 12 FENs plus every prefix of 8 long deterministic games, each sent as one position command to the real command loop",
+   technique="exhaustive path enumeration: every game up to length 2-4 from the start position and 12 FENs plus every prefix of 8 long deterministic games, each sent as one position command to the real command loop; all ordered pairs of ways of writing one root sent as two commands to one engine (POSITION-PAIRS)",
    text="After each command the engine's game equals the rules-level position (tolerant en-passant field), the FEN dump describes it, the history length equals the number of moves, the replies equal the legal moves in long algebraic form, bestmove text is well-formed and legal.",
    design="5/C17"),
  "C18": dict(
@@ -80,12 +80,12 @@ CHECKS = {
    text="For every move: text injective within the position, equal to the reference SAN (PGN standard disambiguation) modulo +/#, suffix present iff the move gives check (castling included), and parse_move(format_move(m)) == m inside catch_unwind.",
    design="5/C18"),
  "C19": dict(
-   technique="explicit-state BFS over operation histories of the real table (insert / new-search / reset / resize with colliding keys), de-duplicated on the canonical observable state, against a reference replacement policy; complete fill-indicator sweep",
+   technique="explicit-state BFS over operation histories of the real table (insert / new-search / reset / resize with colliding keys), de-duplicated on the canonical observable state, against a reference replacement policy; every history also executed without intermediate probes (probing is itself an operation); complete fill-indicator sweep, and the statistics of a 128 (512) MB table around 2^32/1000 occupied slots",
    text="After every operation of every explored history every probe of every alphabet key equals the reference policy's entry (the case the property leaves open is delegated to should_overwrite_with), occupied equals the number of occupied slots; sizes from the advertised minimum, start generations 0/254/255; fill indicator at every permille boundary up to a full table; 800 consecutive searches.",
    design="5/C19"),
  "C20": dict(
-   technique="explicit-state exploration: every legal non-en-passant capture of every state of the sweep and of the complete F-SEE constellation family (victim + up to 2 (3) further men on seeing squares incl. x-rays, 5 king pairs) against a swap-list reference",
-   text="At threshold 0: verdict equal for the colour-mirrored capture, true when the target is undefended, true when victim >= attacker, and equal to the swap-list minimax on constellations without a tie among least-valuable attackers; piece values probed through the public verdicts.",
+   technique="explicit-state exploration: every legal non-en-passant capture of every state of the sweep and of the complete F-SEE constellation family (victim + up to 2 (3) further men on seeing squares incl. x-rays, 5 king pairs) against a swap-list reference; all ordered pairs of captures of a position judged back to back (order independence)",
+   text="At threshold 0: verdict equal for the colour-mirrored capture, true when the target is undefended, true when victim >= attacker, and equal to the swap-list minimax on constellations without a tie among least-valuable attackers, and independent of which capture of the same position was judged immediately before; piece values probed through the public verdicts.",
    design="5/C20"),
 }
 
